@@ -2078,11 +2078,12 @@ theorem c09_shape_router_Router_connection_b4 :
 
 theorem c09_shape_tcp_handleError_b4 :
     Shapes.network_tcp_handleError_b4 =
-   ["if:(strings.Contains(err.Error(),\"\")||strings.Contains(err.Error(),\"\"))",
-     "return:ErrClosed", "else", "if:strings.Contains(err.Error(),\"\")", "return:ErrCanceled",
-     "else", "if:((err==io.EOF)||strings.Contains(err.Error(),\"\"))", "return:ErrEOF",
-     "assign:netErr,ok:=err.(net.Error)", "if:!ok", "return:ErrUnknown", "if:netErr.Timeout()",
-     "return:ErrTimeout", "if:strings.Contains(err.Error(),\"\")", "else", "return:ErrUnknown"] := rfl
+   ["if:(strings.Contains(err.Error(),\"use of closed\")||strings.Contains(err.Error(),\"broken pipe\"))",
+     "return:ErrClosed", "else", "if:strings.Contains(err.Error(),\"canceled\")",
+     "return:ErrCanceled", "else", "if:((err==io.EOF)||strings.Contains(err.Error(),\"EOF\"))",
+     "return:ErrEOF", "assign:netErr,ok:=err.(net.Error)", "if:!ok", "return:ErrUnknown",
+     "if:netErr.Timeout()", "return:ErrTimeout",
+     "if:strings.Contains(err.Error(),\"bad certificate\")", "else", "return:ErrUnknown"] := rfl
 
 theorem c09_shape_local_LocalManager_close_b4 :
     Shapes.network_local_LocalManager_close_b4 =
